@@ -37,6 +37,7 @@ class Fragment:
     attr: Optional[Callable[[ModelBuilder, AObj, str, Any], AObj]] = None   # how an attribute of a value kind is attached
     filler: Callable[[str], str] = staticmethod(lambda s: s)   # maps the skeleton's own names into the format's alphabet
     roles: tuple[str, ...] = ("none", "left", "right", "neg-left", "under-neg-right", "inner", "twice")
+    numeric: bool = False                                  # comparisons and arithmetic over feature references (UVL)
     exclude: Callable[[dict[str, Any]], Optional[str]] = staticmethod(lambda a: None)   # combination outside the fragment
 
 
@@ -84,7 +85,7 @@ def _dims(fr: Fragment) -> dict[str, list[str]]:
     d: dict[str, list[str]] = {"pos": slots, "name": list(fr.names)}
     if fr.values:
         d["value"] = ["no-attribute"] + list(fr.values)
-    roles = [r for r in fr.roles if fr.negation or "neg" not in r]
+    roles = [r for r in fr.roles if fr.negation or "neg" not in r] + (["compared", "arithmetic-operand"] if fr.numeric else [])
     if fr.ops:
         d["role"] = roles
         d["op"] = list(fr.ops)
@@ -245,6 +246,12 @@ def build(mb: ModelBuilder, fr: Fragment, asg: dict[str, dict[str, str]], index:
             ctcs.append(mb.constraint(cn, n(o("NOT"), n(o(op), P(), X()))))
         elif role == "inner":
             ctcs.append(mb.constraint(cn, n(o(fr.ops[0]), n(o(op), X(), P()), T())))
+        elif role == "compared":
+            cmp_ = ("EQUALS", "LOWER", "GREATER", "LOWER_EQUALS", "GREATER_EQUALS", "NOT_EQUALS")[len(ctcs) % 6]
+            ctcs.append(mb.constraint(cn, n(o(cmp_), X(), n(3)) if len(ctcs) % 2 else n(o(cmp_), P(), X())))
+        elif role == "arithmetic-operand":
+            ar_ = ("ADD", "SUB", "MUL", "DIV")[len(ctcs) % 4]
+            ctcs.append(mb.constraint(cn, n(o("GREATER"), n(o(ar_), P(), X()) if len(ctcs) % 2 else n(o(ar_), X(), n(2)), n(1))))
         elif role == "twice":
             ctcs.append(mb.constraint(cn, n(o(op), X(), P())))
             ctcs.append(mb.constraint(cn + "b", n(o(op), T(), X())))
